@@ -46,7 +46,7 @@ META = {
         "technique": "runtime monitoring: online trace checker over stream events + decoded-map invariants",
     },
     "C13": {
-        "level": "runtime monitor (metamorphic): 13 differently built trees per random triple are compared with their reference on text and on per-character attribution through map(), both column settings",
+        "level": "runtime monitor (metamorphic): 15 differently built trees per random triple (incl. CachedSource wrappers whose cache was filled by streaming or by an earlier enclosing map()) are compared with their reference on text and on per-character attribution through map(), both column settings",
         "design_ref": "DESIGN.md section 4, C13",
         "note": _TB + "; one known finding (finer column after empty replacements) attributed by a precise trigger",
         "technique": "runtime monitoring: metamorphic relation oracle over attribution functions",
